@@ -31,6 +31,8 @@ def random_runs(ctx, n, **kw):
         try:
             with _c.budget():
                 out.append(Wd.random_run(ctx.rng, **kw))
+        except Exception as e:  # noqa: BLE001
+            out.append(([["driver_crash"]], [{"op": "driver_crash", "out": "Unexpected:" + type(e).__name__, "why": str(e)[:300]}]))
         except _c.Runaway as e:
             out.append(([["runaway"]], [{"op": "runaway", "out": "Runaway", "why": str(e)}]))
             if sum(1 for r in out if r[0] == [["runaway"]]) >= 3:
